@@ -235,8 +235,8 @@ impl Scenario for C19 {
 
     fn runs(tier: Tier) -> u64 {
         match tier {
-            Tier::Quick => 4_000,
-            Tier::Thorough => 200_000,
+            Tier::Quick => 40_000,
+            Tier::Thorough => 1_500_000,
         }
     }
     fn rule() -> &'static str {
